@@ -222,7 +222,7 @@ impl VarInt {
                 Err(_) => vdec((*old(r))@) is None,
             },
 //@end
-    // ASSUMED-FROM-UNIT: kani c16 (VarInt::encoded_size: 2^(first >> 6); `usize::pow` has no vstd spec)
+    // ASSUMED-FROM-UNIT: kani c16_encode_matches_spec (VarInt::encoded_size: 2^(first >> 6); `usize::pow` has no vstd spec)
 //@extract h3/src/proto/varint.rs :: impl VarInt :: fn encoded_size
 //@external_body
 //@attr #[verifier::external_body]
@@ -253,12 +253,12 @@ impl<S, B> BufRecvStream<S, B> {
     pub proof fn lemma_wf(&self) ensures self.consumed() <= self.received().len() {}
 }
 impl<S: RecvStream, B> BufRecvStream<S, B> {
-    // ASSUMED-FROM-UNIT: TODO BufRecvStream::new (h3/src/stream.rs: empty BufList, eos = false)
+    // ASSUMED-FROM-UNIT: frames BufRecvStream::new (h3/src/stream.rs: empty BufList, eos = false)
     #[verifier::external_body]
     pub fn new(stream: S) -> (r: Self)
         ensures r.received() == Seq::<u8>::empty(), r.consumed() == 0, !r.ended(), r.sid() == stream.sid(), r.stops() == stream.stops(),
     { unimplemented!() }
-    // ASSUMED-FROM-UNIT: TODO BufRecvStream::poll_read (h3/src/stream.rs; on top of the transport's `poll_data`, which may
+    // ASSUMED-FROM-UNIT: frames BufRecvStream::poll_read (h3/src/stream.rs; on top of the transport's `poll_data`, which may
     // answer anything at any time: Pending, a non-empty chunk, FIN, any error)
     #[verifier::external_body]
     pub fn poll_read(&mut self, cx: &mut Context<'_>) -> (r: Poll<Result<bool, StreamErrorIncoming>>)
@@ -273,7 +273,7 @@ impl<S: RecvStream, B> BufRecvStream<S, B> {
                 Poll::Pending => final(self).received() == old(self).received() && final(self).ended() == old(self).ended(),
             },
     { unimplemented!() }
-    // ASSUMED-FROM-UNIT: TODO BufRecvStream::buf_mut (`&mut self.buf`).  Prophetic: if the holder of the borrow only
+    // ASSUMED-FROM-UNIT: frames BufRecvStream::buf_mut (`&mut self.buf`).  Prophetic: if the holder of the borrow only
     // *consumes* from the front of the list, the stream has consumed that many bytes more and received nothing.
     #[verifier::external_body]
     pub fn buf_mut(&mut self) -> (r: &mut BufList<Bytes>)
@@ -287,7 +287,7 @@ impl<S: RecvStream, B> BufRecvStream<S, B> {
 impl<S: RecvStream, B> RecvStream for BufRecvStream<S, B> {
     open spec fn sid(&self) -> int { BufRecvStream::<S, B>::sid(self) }
     open spec fn stops(&self) -> Seq<u64> { BufRecvStream::<S, B>::stops(self) }
-    // ASSUMED-FROM-UNIT: TODO impl RecvStream for BufRecvStream::stop_sending (forwards to the transport stream)
+    // ASSUMED-FROM-UNIT: frames impl RecvStream for BufRecvStream::stop_sending (forwards to the transport stream)
     #[verifier::external_body]
     fn stop_sending(&mut self, error_code: u64)
         ensures final(self).received() == old(self).received(), final(self).consumed() == old(self).consumed(),
